@@ -188,7 +188,7 @@ func body(s *simrt.Sim, tier string) {
 		specs []string
 	}
 	kinds := []parserKind{
-		{"ParseStandard", func() parseFn { return cron.ParseStandard }, []string{"*/5 * * * *", "0 12 * * 1-5", "@hourly", "15,45 3 1 * *"}},
+		{"ParseStandard", func() parseFn { return cron.ParseStandard }, []string{"*/5 * * * *", "0 12 * * 1-5", "@hourly", "15,45 3 1 * *", "TZ=Asia/Tokyo 0 5 * * *", "CRON_TZ=America/New_York 0 5 * * *", "TZ=Europe/Lisbon 30 4 * * *"}},
 		{"optional-second parser", func() parseFn {
 			return cron.NewParser(cron.SecondOptional | cron.Minute | cron.Hour | cron.Dom | cron.Month | cron.Dow | cron.Descriptor).Parse
 		}, []string{"*/7 * * * *", "30 */7 * * * *", "1 2 3 4 *", "5 4 3 2 1 *", "@daily"}},
